@@ -326,6 +326,12 @@ def _atom0(ctx, a):
     if a.kind == "recip":
         u = _poly(ctx, a.key[0])
         return _divide(ctx, RS(ctx, PS.const(ctx, 1)), u)
+    if a.kind == "tan":
+        u = _poly(ctx, a.key[0])
+        if u.a.c0().t:
+            raise NotAnalytic()
+        sr, cr = _sincos(ctx, u)
+        return _divide(ctx, sr, cr)
     raise NotAnalytic()
 
 
